@@ -218,6 +218,8 @@ def run(spec, rec):
                 grids = [gen.make_grid(rng, Lk, kind=str(rng.choice(["default", "uniform", "quadratic", "random"]))) for Lk in Ls]
             phi = gen.random_density(rng, tuple(len(g) for g in grids))
             ns = sizes(rng, nd, {1: 30, 2: 10, 3: 5, 4: 3}[nd])
+            if nd >= 2 and ci % 4 == 0:
+                ns = [ns[0]] * nd          # equal sample sizes on one shared grid: the populations still have weights of their own
             desc = {"nd": nd, "L": [len(g) for g in grids], "ns": ns, "per_axis_grids": pergrid}
             if not rec.case("dir%d-%d" % (nd, ci), desc, nontrivial=len(set(ns)) == len(ns)):
                 continue
@@ -295,6 +297,9 @@ def run(spec, rec):
             rng = rng_for(seed, "C05inb", nd, ci)
             L = int(rng.integers(6, {1: 24, 2: 10, 3: 7}[nd] + 1))
             x = np.asarray(Numerics.default_grid(L))
+            if ci % 3 == 1:
+                # a grid that is not its own mirror image about 1/2 (refined near 0 only)
+                x = np.asarray(gen.make_grid(rng, L, kind=str(rng.choice(["sqlin", "random"]))))
             grids = [x] * nd
             phi = gen.random_density(rng, (L,) * nd, kind="smooth")
             ploidys = [int(rng.choice([2, 2, 4, 6, 8])) for _ in range(nd)]
